@@ -12,11 +12,14 @@ namespace Avra.Props.C14
 open Avra Avra.Model Avra.Peg Avra.Lemmas.Fuel Avra.Props.C09 Avra.Props.C05pp
 set_option linter.unusedSimpArgs false
 set_option linter.unusedVariables false
+set_option linter.constructorNameAsVariable false
 
 /-! ### whole lines: instructions with any operands the grammar reads — registers, numbers, expressions -/
 
 /-- what may follow an operand of an instruction -/
-def AfterOpd (rest : Str) : Prop := AfterItem rest ∧ ∀ r2, skipSpace rest ≠ '(' :: r2
+def AfterOpd (rest : Str) : Prop :=
+  AfterItem rest ∧ (∀ r2, skipSpace rest ≠ '(' :: r2) ∧
+    (skipSpace rest = [] ∨ ∃ x xs, skipSpace rest = x :: xs ∧ noStart x)
 
 /-- an operand as text, with the value the grammar gives it wherever an operand may end -/
 structure Opd where
@@ -45,11 +48,23 @@ theorem opd_after (more : List (Str × Str × Opd)) (hm : opdsOk more) (ws2 c : 
       | false => rfl
       | true => simp [isIdentChar, hd] at this
     · intro y hy; exact (tail_head ws2 c hws2 hc y hy).1
-    · intro r2 hr
-      rw [skip_tail ws2 c hws2 hc] at hr
-      rcases hc with rfl | ⟨hs, _⟩
-      · simp at hr
-      · rw [hr] at hs; rcases hs with h | h <;> simp at h
+    · refine ⟨?_, ?_⟩
+      · intro r2 hr
+        rw [skip_tail ws2 c hws2 hc] at hr
+        rcases hc with rfl | ⟨hs, _⟩
+        · simp at hr
+        · rw [hr] at hs; rcases hs with h | h <;> simp at h
+      · rw [skip_tail ws2 c hws2 hc]
+        rcases hc with rfl | ⟨hs, _⟩
+        · exact Or.inl rfl
+        · cases c with
+          | nil => exact Or.inl rfl
+          | cons y ys =>
+            right
+            refine ⟨y, ys, rfl, ?_⟩
+            rcases hs with h | h <;> (simp at h; subst h)
+            · exact Or.inl rfl
+            · exact Or.inr (Or.inl rfl)
   | cons x xs =>
     obtain ⟨a, b, o⟩ := x
     have ha : blanks a := (hm _ (List.mem_cons_self ..)).1
@@ -71,9 +86,14 @@ theorem opd_after (more : List (Str × Str × Opd)) (hm : opdsOk more) (ws2 c : 
       cases hd : isDigit y with
       | false => rfl
       | true => simp [isIdentChar, hd] at this
-    · intro r2 hr
-      rw [space_absorbs a _ ha] at hr
-      simp +decide [skipSpace] at hr
+    · refine ⟨?_, ?_⟩
+      · intro r2 hr
+        rw [space_absorbs a _ ha] at hr
+        simp +decide [skipSpace] at hr
+      · right
+        rw [space_absorbs a _ ha]
+        have hsk : ∀ t : Str, skipSpace (',' :: t) = ',' :: t := fun t => by simp +decide [skipSpace]
+        exact ⟨',', _, hsk _, Or.inr (Or.inr (Or.inr (Or.inl rfl)))⟩
 
 theorem opd_len (more : List (Str × Str × Opd)) : more.length ≤ (opdTail more).length := by
   induction more with
@@ -254,7 +274,7 @@ theorem reg8_none (y : Char) (ys : Str) (h : ¬ regLetter y) : reg8 (y :: ys) = 
 theorem Opd.ofExpr_ok (k : Nat) (e : Expr) (s : Str) (hsp : Spaced 0 k e s) (hnr : NotRegLike s) : (Opd.ofExpr e s).ok := by
   refine ⟨?_, fun rest => skip_spaced 0 k e s hsp rest⟩
   intro rest hr
-  obtain ⟨⟨_, hend, hop⟩, hpar⟩ := hr
+  obtain ⟨⟨_, hend, hop⟩, hpar, _⟩ := hr
   have he : expr (s ++ rest) = .ok e rest :=
     parse_print_spaced k e s hsp rest ⟨hend, hpar⟩ (by
       intro x hx
@@ -452,9 +472,14 @@ theorem dpd_after (more : List (Str × Str × Dpd)) (hm : dpdsOk more) (ws2 c : 
       cases hd : isDigit y with
       | false => rfl
       | true => simp [isIdentChar, hd] at this
-    · intro r2 hr
-      rw [space_absorbs a _ ha] at hr
-      simp +decide [skipSpace] at hr
+    · refine ⟨?_, ?_⟩
+      · intro r2 hr
+        rw [space_absorbs a _ ha] at hr
+        simp +decide [skipSpace] at hr
+      · right
+        rw [space_absorbs a _ ha]
+        have hsk : ∀ t : Str, skipSpace (',' :: t) = ',' :: t := fun t => by simp +decide [skipSpace]
+        exact ⟨',', _, hsk _, Or.inr (Or.inr (Or.inr (Or.inl rfl)))⟩
 
 theorem dpd_len (more : List (Str × Str × Dpd)) : more.length ≤ (dpdTail more).length := by
   induction more with
@@ -588,7 +613,7 @@ def Dpd.ofExpr (e : Expr) (s : Str) : Dpd := ⟨s, .e e⟩
 theorem Dpd.ofExpr_ok (k : Nat) (e : Expr) (s : Str) (hsp : Spaced 0 k e s) : (Dpd.ofExpr e s).ok := by
   refine ⟨?_, fun rest => skip_spaced 0 k e s hsp rest⟩
   intro rest hr
-  obtain ⟨⟨_, hend, hop⟩, hpar⟩ := hr
+  obtain ⟨⟨_, hend, hop⟩, hpar, _⟩ := hr
   have he : expr (s ++ rest) = .ok e rest :=
     parse_print_spaced k e s hsp rest ⟨hend, hpar⟩ (by
       intro x hx
@@ -763,6 +788,329 @@ example : ∃ ops, line ".db low ( K ) + 1 ,2 ; t".toList = .ok (.directiveLine 
       subst hx
       exact ⟨hb _ (Or.inr rfl), hb _ (Or.inl rfl), Dpd.ofExpr_ok _ _ _ h2⟩)
     (hb _ (Or.inr rfl)) (Or.inr ⟨Or.inl rfl, rfl⟩)
+  exact ⟨_, this⟩
+
+/-! ### index operands: `X`, `X+`, `-X`, `Y+q` -/
+
+/-- a pointer register in either letter case -/
+def r16Text (up : Bool) : Reg16 → Str
+  | .x => [if up then 'X' else 'x']
+  | .y => [if up then 'Y' else 'y']
+  | .z => [if up then 'Z' else 'z']
+
+theorem reg16_r16Text (up : Bool) (r : Reg16) (rest : Str) : reg16 (r16Text up r ++ rest) = some (r, rest) := by
+  cases r <;> cases up <;> simp +decide [r16Text, reg16]
+
+theorem skip_r16 (up : Bool) (r : Reg16) (rest : Str) : skipSpace (r16Text up r ++ rest) = r16Text up r ++ rest := by
+  cases r <;> cases up <;> simp +decide [r16Text, skipSpace]
+
+theorem afterOpd_noPlus (rest : Str) (h : AfterOpd rest) : ∀ r2, skipSpace rest ≠ '+' :: r2 := by
+  intro r2 hr
+  rcases h.2.2 with h0 | ⟨x, xs, hx, hns⟩
+  · rw [h0] at hr; simp at hr
+  · rw [hx] at hr
+    simp only [List.cons.injEq] at hr
+    rw [hr.1] at hns
+    rcases hns with h | h | h | h | h | h | h | h | h | h <;> exact absurd h (by decide)
+
+theorem afterOpd_head (rest : Str) (h : AfterOpd rest) : ∀ y ys, rest = y :: ys → isIdentChar y = false ∧ y ≠ '+' := by
+  intro y ys hr
+  subst hr
+  refine ⟨h.1.2.1 y rfl, ?_⟩
+  intro hy; subst hy
+  have := afterOpd_noPlus _ h ys
+  simp +decide [skipSpace] at this
+
+theorem expr_fails_after (rest : Str) (h : AfterOpd rest) : expr (skipSpace rest) = .fail := by
+  rcases h.2.2 with h0 | ⟨x, xs, hx, hns⟩
+  · rw [h0]; exact expr_fails_nil
+  · rw [hx]; exact expr_fails' x xs hns
+
+/-- `X`, `Y`, `Z` alone -/
+theorem indexOps_plain (up : Bool) (r : Reg16) (rest : Str) (h : AfterOpd rest) :
+    indexOps (r16Text up r ++ rest) = .ok (.none r) rest := by
+  have hnp := afterOpd_noPlus _ h
+  have key : ∀ (c : Char) (r0 : Reg16), c ≠ '-' → reg16 (c :: rest) = some (r0, rest) →
+      indexOps (c :: rest) = .ok (.none r0) rest := by
+    intro c r0 hc hr
+    unfold indexOps
+    simp only [hr]
+    split
+    · rename_i v r' heq
+      split at heq
+      · rename_i t ht; simp only [List.cons.injEq] at ht; exact absurd ht.1 hc
+      · simp at heq
+    · split
+      · rename_i r2 _
+        exact absurd (by simp +decide [skipSpace]) (hnp r2)
+      · rename_i c' t _ _
+        have hy1 := (afterOpd_head _ h c' t rfl).1
+        simp [hy1]
+      · rfl
+  have hr := reg16_r16Text up r rest
+  cases r <;> cases up <;> exact key _ _ (by decide) hr
+
+/-- `X+`, `Y+`, `Z+` -/
+theorem indexOps_postInc (up : Bool) (r : Reg16) (rest : Str) (h : AfterOpd rest) :
+    indexOps (r16Text up r ++ ('+' :: rest)) = .ok (.postInc r) rest := by
+  have hf := expr_fails_after rest h
+  cases r <;> cases up <;> simp +decide [indexOps, r16Text, reg16, skipSpace, hf]
+
+/-- `-X`, `-Y`, `-Z` -/
+theorem indexOps_preDec (up : Bool) (r : Reg16) (rest : Str) :
+    indexOps ('-' :: (r16Text up r ++ rest)) = .ok (.preDec r) rest := by
+  cases r <;> cases up <;> simp +decide [indexOps, r16Text, reg16]
+
+/-- `Y+q`, `Z + q`: a displacement written in any of the ways of `Spaced`, blanks around the `+` -/
+theorem indexOps_disp (up : Bool) (r : Reg16) (w1 w2 : Str) (k : Nat) (e : Expr) (s : Str) (rest : Str)
+    (hw1 : blanks w1) (hw2 : blanks w2) (hsp : Spaced 0 k e s) (h : AfterOpd rest) :
+    indexOps (r16Text up r ++ (w1 ++ '+' :: (w2 ++ (s ++ rest)))) = .ok (.postIncE r e) rest := by
+  have hr := reg16_r16Text up r (w1 ++ '+' :: (w2 ++ (s ++ rest)))
+  have hsk1 : skipSpace (w1 ++ '+' :: (w2 ++ (s ++ rest))) = '+' :: (w2 ++ (s ++ rest)) := by
+    rw [space_absorbs w1 _ hw1]; simp +decide [skipSpace]
+  have hsk2 : skipSpace (w2 ++ (s ++ rest)) = s ++ rest := by
+    rw [space_absorbs w2 _ hw2, skip_spaced 0 k e s hsp rest]
+  have he : expr (s ++ rest) = .ok e rest := by
+    obtain ⟨⟨_, hend, hop⟩, hpar, _⟩ := h
+    exact parse_print_spaced k e s hsp rest ⟨hend, hpar⟩ (by
+      intro x hx
+      rcases hop x hx with h | h
+      · exact Or.inr (Or.inl h)
+      · exact Or.inr (Or.inr h))
+  have key : ∀ (c : Char), c ≠ '-' → reg16 (c :: (w1 ++ '+' :: (w2 ++ (s ++ rest)))) = some (r, w1 ++ '+' :: (w2 ++ (s ++ rest))) →
+      indexOps (c :: (w1 ++ '+' :: (w2 ++ (s ++ rest)))) = .ok (.postIncE r e) rest := by
+    intro c hc hr
+    unfold indexOps
+    simp only [hr, hsk1, hsk2, he]
+    split
+    · rename_i v r' heq
+      split at heq
+      · rename_i t ht; simp only [List.cons.injEq] at ht; exact absurd ht.1 hc
+      · simp at heq
+    · rfl
+  cases r <;> cases up <;> exact key _ (by decide) hr
+
+/-! the operands -/
+
+def Opd.plain (up : Bool) (r : Reg16) : Opd := ⟨r16Text up r, .index (.none r)⟩
+def Opd.postInc (up : Bool) (r : Reg16) : Opd := ⟨r16Text up r ++ ['+'], .index (.postInc r)⟩
+def Opd.preDec (up : Bool) (r : Reg16) : Opd := ⟨'-' :: r16Text up r, .index (.preDec r)⟩
+def Opd.disp (up : Bool) (r : Reg16) (w1 w2 : Str) (e : Expr) (s : Str) : Opd :=
+  ⟨r16Text up r ++ (w1 ++ '+' :: (w2 ++ s)), .index (.postIncE r e)⟩
+
+theorem Opd.plain_ok (up : Bool) (r : Reg16) : (Opd.plain up r).ok := by
+  refine ⟨fun rest hr => ?_, fun rest => skip_r16 up r rest⟩
+  simp only [Opd.plain]
+  unfold instructionOps
+  simp only [indexOps_plain up r rest hr]
+
+theorem Opd.postInc_ok (up : Bool) (r : Reg16) : (Opd.postInc up r).ok := by
+  refine ⟨fun rest hr => ?_, fun rest => by simp only [Opd.postInc, List.append_assoc]; exact skip_r16 up r _⟩
+  simp only [Opd.postInc, List.append_assoc, List.cons_append, List.nil_append]
+  unfold instructionOps
+  simp only [indexOps_postInc up r rest hr]
+
+theorem Opd.preDec_ok (up : Bool) (r : Reg16) : (Opd.preDec up r).ok := by
+  refine ⟨fun rest hr => ?_, fun rest => by simp +decide [Opd.preDec, skipSpace]⟩
+  simp only [Opd.preDec, List.cons_append]
+  unfold instructionOps
+  simp only [indexOps_preDec up r rest]
+
+theorem Opd.disp_ok (up : Bool) (r : Reg16) (w1 w2 : Str) (k : Nat) (e : Expr) (s : Str)
+    (hw1 : blanks w1) (hw2 : blanks w2) (hsp : Spaced 0 k e s) : (Opd.disp up r w1 w2 e s).ok := by
+  refine ⟨fun rest hr => ?_, fun rest => by simp only [Opd.disp, List.append_assoc]; exact skip_r16 up r _⟩
+  have := indexOps_disp up r w1 w2 k e s rest hw1 hw2 hsp hr
+  simp only [Opd.disp, List.append_assoc, List.cons_append]
+  unfold instructionOps
+  simp only [this]
+
+/-! non-vacuity: ` st -X , r5` and ` ldd r16, Y + 2 ; c` -/
+example : ∃ toks, line " st -X , r5".toList = .ok (.codeLine none (opOfWord (lower ['s', 't'])) toks) := by
+  have hb : ∀ w : Str, w = [] ∨ w = [' '] → blanks w := by
+    intro w hw c hc; rcases hw with rfl | rfl <;> simp at hc; subst hc; decide
+  have := operands_instruction_line [' '] ['s', 't'] [' '] (Opd.preDec true .x)
+    [([' '], [' '], Opd.ofItem (.reg false 5))] [] []
+    (hb _ (Or.inr rfl)) ⟨'s', ['t'], rfl, by decide, by decide⟩ (hb _ (Or.inr rfl)) (by decide)
+    (Opd.preDec_ok true .x)
+    (by
+      intro x hx
+      simp only [List.mem_singleton] at hx
+      subst hx
+      exact ⟨hb _ (Or.inr rfl), hb _ (Or.inr rfl), Opd.ofItem_ok _ (by unfold Item.good; decide)⟩)
+    (hb _ (Or.inl rfl)) (Or.inl rfl)
+  exact ⟨_, this⟩
+
+example : ∃ toks, line " ldd r16, Y + 2 ; c".toList = .ok (.codeLine none (opOfWord (lower ['l', 'd', 'd'])) toks) := by
+  have hb : ∀ w : Str, w = [] ∨ w = [' '] → blanks w := by
+    intro w hw c hc; rcases hw with rfl | rfl <;> simp at hc; subst hc; decide
+  have h2 : Spaced 0 top (.const 2) ['2'] := Spaced.const 0 2 2 rfl (by decide)
+  have := operands_instruction_line [' '] ['l', 'd', 'd'] [' '] (Opd.ofItem (.reg false 16))
+    [([], [' '], Opd.disp true .y [' '] [' '] (.const 2) ['2'])] [' '] "; c".toList
+    (hb _ (Or.inr rfl)) ⟨'l', ['d', 'd'], rfl, by decide, by decide⟩ (hb _ (Or.inr rfl)) (by decide)
+    (Opd.ofItem_ok _ (by unfold Item.good; decide))
+    (by
+      intro x hx
+      simp only [List.mem_singleton] at hx
+      subst hx
+      exact ⟨hb _ (Or.inl rfl), hb _ (Or.inr rfl), Opd.disp_ok true .y _ _ _ _ _ (hb _ (Or.inr rfl)) (hb _ (Or.inr rfl)) h2⟩)
+    (hb _ (Or.inr rfl)) (Or.inr ⟨Or.inl rfl, rfl⟩)
+  exact ⟨_, this⟩
+
+/-! ### string operands of directives -/
+
+theorem atom_not_ok_quote (xs : Str) : ∀ f e r, parseAtom f ('"' :: xs) ≠ .ok e r := by
+  intro f e r h
+  have hid : identText ('"' :: xs) = none := by simp +decide [identText]
+  have hch : ch ('"' :: xs) = none := by simp [ch]
+  have hec : eConst ('"' :: xs) = none := by simp +decide [eConst, constAlt, lit, takeWhileP, isDigit]
+  cases f with
+  | zero => simp [parseAtom] at h
+  | succ f => simp [parseAtom, hid, hec, hch] at h
+
+theorem tryPrefix_not_ok_quote (xs : Str) :
+    ∀ (l : List (Str × UnOp × Nat)), (∀ y ∈ l, y.1 ≠ [] ∧ y.1.head? ≠ some '"') → ∀ f e r, tryPrefix f l ('"' :: xs) ≠ .ok e r := by
+  intro l
+  induction l with
+  | nil =>
+    intro _ f e r h
+    cases f with
+    | zero => simp [tryPrefix] at h
+    | succ f => simp only [tryPrefix] at h; exact atom_not_ok_quote xs f e r h
+  | cons y more ih =>
+    intro hl f e r h
+    obtain ⟨t, u, lv⟩ := y
+    have ht := hl (t, u, lv) (List.mem_cons_self ..)
+    have hlit := lit_head_ne t '"' xs ht.1 ht.2
+    cases f with
+    | zero => simp [tryPrefix] at h
+    | succ f =>
+      simp only [tryPrefix, hlit] at h
+      exact ih (fun y hy => hl y (List.mem_cons_of_mem _ hy)) f e r h
+
+/-- a string is no expression -/
+theorem expr_fails_quote (xs : Str) : expr ('"' :: xs) = .fail := by
+  have hno := expr_no_oof ('"' :: xs)
+  have hnok : ∀ e r, expr ('"' :: xs) ≠ .ok e r := by
+    intro e r h
+    unfold expr at h
+    generalize exprFuel ('"' :: xs) = f at h
+    cases f with
+    | zero => simp [parseInfix] at h
+    | succ f =>
+      simp only [parseInfix] at h
+      split at h
+      · rename_i e1 rest hp
+        cases f with
+        | zero => simp [parsePrefixAtom] at hp
+        | succ f =>
+          simp only [parsePrefixAtom] at hp
+          have key : ∀ y ∈ prefixOps, y.1 ≠ [] ∧ y.1.head? ≠ some '"' := by decide
+          exact tryPrefix_not_ok_quote xs prefixOps key f e1 rest hp
+      · simp at h
+      · simp at h
+  cases h : expr ('"' :: xs) with
+  | ok e r => exact absurd h (hnok e r)
+  | fail => rfl
+  | oof => exact absurd h hno
+
+/-- a string operand: any characters but the quote and line ends, between quotes -/
+def Dpd.ofString (body : Str) : Dpd := ⟨'"' :: (body ++ ['"']), .s body⟩
+
+theorem Dpd.ofString_ok (body : Str) (hb : ∀ ch ∈ body, notStrEnd ch = true) : (Dpd.ofString body).ok := by
+  refine ⟨fun rest hr => ?_, fun rest => by simp +decide [Dpd.ofString, skipSpace]⟩
+  simp only [Dpd.ofString, List.cons_append, List.append_assoc, List.nil_append]
+  have htw : takeWhileP notStrEnd (body ++ ('"' :: rest)) = (body, '"' :: rest) :=
+    takeWhile_all notStrEnd body _ hb (by intro y hy; simp at hy; subst hy; decide)
+  unfold directiveOp
+  simp only [expr_fails_quote, Peg.string, htw]
+
+/-- **A directive line with any list of operands** — expressions in any `Spaced` writing and
+    strings, in any mixture — optionally behind a label (glued to the colon or not) -/
+theorem operands_directive_line (lab : Option Str) (labText ws1 name wsA : Str) (o : Dpd) (more : List (Str × Str × Dpd)) (ws2 c : Str)
+    (hlabel : (lab = none ∧ labText = []) ∨ ∃ l, isName l ∧ lab = some (lower l) ∧ labText = l ++ [':'])
+    (hws1 : blanks ws1) (hname : name ≠ []) (hlow : ∀ ch ∈ name, isLowerAlpha ch = true)
+    (hwsA : blanks wsA) (hA : wsA ≠ []) (hg : o.ok) (hm : dpdsOk more)
+    (hlead : LeadOk (o.text ++ (dpdTail more ++ (ws2 ++ c))))
+    (hws2 : blanks ws2) (hc : lineEnd c) :
+    line (labText ++ (ws1 ++ ('.' :: (name ++ (wsA ++ (o.text ++ (dpdTail more ++ (ws2 ++ c)))))))) =
+      .ok (.directiveLine lab (directiveOfName name) (.opList (o.val :: more.map (fun x => x.2.2.val)))) := by
+  obtain ⟨w, ws, rfl⟩ : ∃ w ws, wsA = w :: ws := by
+    cases wsA with
+    | nil => exact absurd rfl hA
+    | cons w ws => exact ⟨w, ws, rfl⟩
+  have hw : isSpace w = true := hwsA w (by simp)
+  have hwl : isLowerAlpha w = false := by
+    simp only [isSpace, Bool.or_eq_true, beq_iff_eq] at hw
+    rcases hw with rfl | rfl <;> decide
+  have hdo := directiveOps_dpds o hg more hm ws2 c hws2 hc hlead
+  have hsr := hg.2 (dpdTail more ++ (ws2 ++ c))
+  generalize hR : o.text ++ (dpdTail more ++ (ws2 ++ c)) = R at hdo hsr ⊢
+  have hopt : optLabel (labText ++ (ws1 ++ ('.' :: (name ++ ((w :: ws) ++ R))))) = (lab, ws1 ++ ('.' :: (name ++ ((w :: ws) ++ R)))) := by
+    rcases hlabel with ⟨rfl, rfl⟩ | ⟨l, hl, rfl, rfl⟩
+    · have hlab : label (ws1 ++ ('.' :: (name ++ ((w :: ws) ++ R)))) = none := by
+        cases ws1 with
+        | nil => simp +decide [label, identText]
+        | cons v vs =>
+          have hv : isSpace v = true := hws1 v (by simp)
+          have : isIdentStart v = false := by
+            simp only [isSpace, Bool.or_eq_true, beq_iff_eq] at hv
+            rcases hv with rfl | rfl <;> decide
+          simp [label, identText, this]
+      simp only [List.nil_append, optLabel, hlab]
+    · have hidl : identText (l ++ ':' :: (ws1 ++ ('.' :: (name ++ ((w :: ws) ++ R))))) = some (l, ':' :: (ws1 ++ ('.' :: (name ++ ((w :: ws) ++ R))))) :=
+        identText_name l _ hl (by intro y hy; simp at hy; subst hy; decide)
+      have : l ++ [':'] ++ (ws1 ++ ('.' :: (name ++ ((w :: ws) ++ R)))) = l ++ ':' :: (ws1 ++ ('.' :: (name ++ ((w :: ws) ++ R)))) := by simp
+      rw [this]
+      simp only [optLabel, label, hidl]
+  have hsk : skipSpace (ws1 ++ ('.' :: (name ++ ((w :: ws) ++ R)))) = '.' :: (name ++ ((w :: ws) ++ R)) := by
+    rw [space_absorbs ws1 _ hws1]; simp +decide [skipSpace]
+  have htw : takeWhileP isLowerAlpha (name ++ ((w :: ws) ++ R)) = (name, (w :: ws) ++ R) :=
+    takeWhile_all isLowerAlpha name _ hlow (by intro y hy; simp at hy; subst hy; exact hwl)
+  have hdir : directive ('.' :: (name ++ ((w :: ws) ++ R))) = some (directiveOfName name, (w :: ws) ++ R) := by
+    have hne : name.isEmpty = false := by cases name with | nil => exact absurd rfl hname | cons _ _ => rfl
+    simp only [directive, htw, hne]
+    simp +decide
+  have hsA : skipSpace ((w :: ws) ++ R) = R := by
+    rw [space_absorbs (w :: ws) _ hwsA]; exact hsr
+  have hst := skip_tail ws2 c hws2 hc
+  unfold line
+  rw [hopt]
+  dsimp only
+  simp only [hsk]
+  simp only [hdir]
+  simp only [hsA]
+  simp only [hdo]
+  simp only [hst]
+  rcases hc with rfl | ⟨_, hcom⟩
+  · simp [comment]
+  · simp only [hcom]; simp
+
+
+/-- what a list may begin with: an expression or a string -/
+theorem leadOk_string (body rest : Str) : LeadOk ((Dpd.ofString body).text ++ rest) :=
+  Or.inl ⟨'"', _, rfl, by decide⟩
+
+theorem leadOk_expr (k : Nat) (e : Expr) (s : Str) (hsp : Spaced 0 k e s) (more : List (Str × Str × Dpd)) (hm : dpdsOk more)
+    (ws2 c : Str) (hws2 : blanks ws2) (hc : lineEnd c) : LeadOk ((Dpd.ofExpr e s).text ++ (dpdTail more ++ (ws2 ++ c))) :=
+  spaced_lead 0 k e s hsp _ (dpd_after more hm ws2 c hws2 hc).1.2.1 (dpd_after_head more hm ws2 c hws2 hc)
+
+/-! non-vacuity: `msg:.db "Hi; there" , 0 // z` -/
+example : ∃ ops, line "msg:.db \"Hi; there\" , 0 // z".toList =
+    .ok (.directiveLine (some (lower ['m', 's', 'g'])) (directiveOfName ['d', 'b']) ops) := by
+  have hb : ∀ w : Str, w = [] ∨ w = [' '] → blanks w := by
+    intro w hw c hc; rcases hw with rfl | rfl <;> simp at hc; subst hc; decide
+  have h0 : Spaced 0 top (.const 0) ['0'] := Spaced.const 0 0 0 rfl (by decide)
+  have := operands_directive_line (some (lower ['m', 's', 'g'])) "msg:".toList [] ['d', 'b'] [' '] (Dpd.ofString "Hi; there".toList)
+    [([' '], [' '], Dpd.ofExpr (.const 0) ['0'])] [' '] "// z".toList
+    (Or.inr ⟨['m', 's', 'g'], ⟨'m', ['s', 'g'], rfl, by decide, by decide⟩, rfl, rfl⟩)
+    (hb _ (Or.inl rfl)) (by decide) (by decide) (hb _ (Or.inr rfl)) (by decide)
+    (Dpd.ofString_ok _ (by decide))
+    (by
+      intro x hx
+      simp only [List.mem_singleton] at hx
+      subst hx
+      exact ⟨hb _ (Or.inr rfl), hb _ (Or.inr rfl), Dpd.ofExpr_ok _ _ _ h0⟩)
+    (leadOk_string _ _) (hb _ (Or.inr rfl)) (Or.inr ⟨Or.inr rfl, rfl⟩)
   exact ⟨_, this⟩
 
 end Avra.Props.C14
